@@ -166,11 +166,134 @@ Proof.
   specialize (IH s1 R1). destruct (run c s1 t) as [r b]. cbn in *. intros [<-|Hx]; auto.
 Qed.
 
+(* ---- sinks and tasks: a sink the handle or the user holds belongs to a task of that peer ---- *)
+Definition SKInv (s : st) : Prop :=
+  forall p k, hsink s p = Some k \/ usink s p = Some k ->
+    k < ntask s /\ forall t, In t (tasks s) -> t_id t = k -> t_peer t = p.
+
+Definition tasks_le2 (n : N) (old new : list task) : Prop :=
+  forall t', In t' new -> (exists t, In t old /\ t_id t' = t_id t /\ t_peer t' = t_peer t) \/ n <= t_id t'.
+
+Lemma SK_sub s s' :
+  SKInv s -> tasks_le2 (ntask s) (tasks s) (tasks s') -> ntask s <= ntask s' ->
+  (forall q k, hsink s' q = Some k -> hsink s q = Some k \/ usink s q = Some k) ->
+  (forall q k, usink s' q = Some k -> hsink s q = Some k \/ usink s q = Some k) -> SKInv s'.
+Proof.
+  intros K TL N0 HS US p k H.
+  assert (H' : hsink s p = Some k \/ usink s p = Some k) by (destruct H as [H|H]; [apply HS in H|apply US in H]; exact H).
+  destruct (K p k H') as [A B]. split; [lia|].
+  intros t' Ht' Id. destruct (TL t' Ht') as [(t & Ht & E1 & E2)|Hge]; [|lia].
+  rewrite E2. apply B; auto. congruence.
+Qed.
+
+Lemma tle2_of_le n old new : tasks_le old new -> tasks_le2 n old new.
+Proof. intros H t Ht. left. apply H, Ht. Qed.
+
+Ltac tle2_close :=
+  first [ apply tle2_of_le; tle_close
+        | let t := fresh "t" in let Ht := fresh "Ht" in
+          intros t Ht; setters; apply in_app_or in Ht; destruct Ht as [Ht|[<-|[]]];
+          [left; exists t; auto | right; cbn; lia] ].
+Ltac sink_src :=
+  let q := fresh "q" in let k := fresh "k" in let X := fresh "X" in let E := fresh "E" in
+  intros q k X; setters; unfold upd in X;
+  repeat match type of X with context [q =? ?p] => destruct (q =? p) eqn:E; [apply N.eqb_eq in E; subst q|] end;
+  first [left; exact X | right; exact X | left; congruence | right; congruence].
+Ltac SK_close K := eapply (SK_sub _ _ K); [setters; tle2_close | setters; lia | sink_src | sink_src].
+
+Lemma SK_on_shutdown s p : SKInv s -> SKInv (on_shutdown s p).
+Proof.
+  intros K. unfold on_shutdown. destruct (ps s p) as [[]|] eqn:Hp; auto.
+  destruct (task_closed s k); auto.
+Qed.
+
+Lemma SK_main c s o s1 ev cl : SKInv s -> main_handler c s o = Some (s1, ev, cl) -> SKInv s1.
+Proof.
+  intros K M. destruct o; unfold_handlers M.
+  all: try (split_all; try (SK_close K; fail); fail).
+  - split_all; try (SK_close K; fail). apply SK_on_shutdown. SK_close K.
+  - match type of M with context [finish_tasks ?a ?b] => destruct (finish_tasks a b) as [[l' e'] n'] eqn:F end.
+    apply finish_tasks_le in F. split_all.
+    assert (K1 : SKInv (set_tasks s l')).
+    { eapply (SK_sub _ _ K); [|setters; lia|sink_src|sink_src]. setters. apply tle2_of_le.
+      intros t' Ht'. destruct (F t' Ht') as (t & Ht & E1 & E2). apply in_map_iff in Ht.
+      destruct Ht as (t0 & E0 & Ht0). exists t0. split; auto.
+      destruct (t_peer t0 =? p); subst t; cbn in *; split; congruence. }
+    unfold run_shutdowns. match goal with |- context [if ?b then _ else _] => destruct b end; auto.
+    now apply SK_on_shutdown.
+  - split_all; try (SK_close K; fail). apply SK_on_shutdown. SK_close K.
+Qed.
+
+Lemma SK_drain ev : forall s s' dr ks, TInv s -> SKInv s -> drain s ev = (s', dr, ks) -> SKInv s'.
+Proof.
+  induction ev as [|e t IH]; intros s s' dr ks T K; cbn.
+  - intros H; injection H as <- _ _. exact K.
+  - destruct e.
+    + destruct (hval s p).
+      * destruct (drain s t) as [[a b] c0] eqn:E. intros H; injection H as <- _ _. eapply IH; eauto.
+      * intros H. eapply (IH _ _ _ _ _ _ H). Unshelve. all: auto.
+    + intros H. eapply (IH _ _ _ _ _ _ H). Unshelve.
+      * exact T.
+      * intros q k X. setters. unfold upd in X. destruct (q =? p) eqn:E.
+        -- apply N.eqb_eq in E. subst q. destruct X as [X|X]; [|apply K; auto].
+           apply (proj2 T). right. exact X.
+        -- apply K. exact X.
+    + destruct (drain (set_hsink (set_hopen s p false) p None) t) as [[a b] c0] eqn:E.
+      intros H; injection H as <- _ _. eapply (IH _ _ _ _ _ _ E). Unshelve.
+      * exact T.
+      * intros q k X. setters. unfold upd in X. destruct (q =? p) eqn:E2.
+        -- destruct X as [X|X]; [discriminate|]. apply N.eqb_eq in E2. subst q. apply K; auto.
+        -- apply K. exact X.
+    + intros H. eapply IH; eauto.
+    + intros H. eapply IH; eauto.
+Qed.
+
+Lemma SK_task_dies s k s' ev : task_dies s k = (s', ev) -> SKInv s -> SKInv s'.
+Proof.
+  unfold task_dies. destruct (find_task k (tasks s)) as [t|]; [|intros E; injection E as <- _; auto].
+  destruct (t_closing t); [intros E; injection E as <- _; auto|].
+  destruct (t_gated t); intros E; injection E as <- _; intros K.
+  - SK_close K.
+  - apply SK_on_shutdown. SK_close K.
+Qed.
+
+Lemma SK_kill ks : forall s s' ev, kill_tasks s ks = (s', ev) -> SKInv s -> SKInv s'.
+Proof.
+  induction ks as [|k t IH]; intros s s' ev; cbn.
+  - intros E; injection E as <- _; auto.
+  - destruct (task_dies s k) as [s1 e1] eqn:E1. destruct (kill_tasks s1 t) as [s2 e2] eqn:E2.
+    intros E; injection E as <- _. intros K. eapply IH; eauto. eapply SK_task_dies; eauto.
+Qed.
+
+Lemma SK_init : SKInv init.
+Proof. intros p k [H|H]; discriminate H. Qed.
+
+Lemma step_SK c s o s' ev cl : TInv s -> SKInv s -> step c s o = Some (s', ev, cl) -> SKInv s'.
+Proof.
+  intros T K. unfold step.
+  destruct (main_handler c s o) as [[[s1 ev1] calls]|] eqn:M; [|discriminate].
+  pose proof (TInv_main _ _ _ _ _ _ T M) as T1. pose proof (SK_main _ _ _ _ _ _ K M) as K1.
+  destruct (drain s1 ev1) as [[s2 dr] ks] eqn:D.
+  pose proof (TInv_same _ _ (drain_tasks _ _ _ _ _ D) T1) as T2. pose proof (SK_drain _ _ _ _ _ T1 K1 D) as K2.
+  destruct (kill_tasks s2 ks) as [s4 ev4] eqn:KK.
+  pose proof (kill_tasks_TInv _ _ _ _ KK T2) as T4. pose proof (SK_kill _ _ _ _ KK K2) as K4.
+  destruct (drain s4 ev4) as [[s5 x] y] eqn:D5.
+  intros H; injection H as <- _ _. eapply SK_drain; eauto.
+Qed.
+
+Lemma reachable_inv3 c s : reachable c s -> SInv s /\ TInv s /\ SKInv s.
+Proof.
+  induction 1 as [|s o s' ev cl R (I & T & K) S].
+  - split; [apply SInv_init|split; [apply TInv_init|apply SK_init]].
+  - split; [|split; [eapply step_TInv; eauto|eapply step_SK; eauto]].
+    destruct (step_SInv c s o I) as (s2 & e2 & c2 & E & I2). rewrite E in S. injection S as <- _ _. exact I2.
+Qed.
+
 (* ================================================================== isolation between peers *)
 Definition uev_peer (e : uev) : peer :=
   match e with UValidate p | UOpened p _ | UClosed p | UFail p _ | UNotif p => p end.
 Definition call_peer (c : call) : peer :=
-  match c with CDial p | COpen p _ | CForce p => p end.
+  match c with CDial p | COpen p _ | CForce p | CRet p _ | CWire p _ _ => p end.
 
 Definition iso_fields (s s' : st) (p : peer) : Prop :=
   forall q, q <> p ->
@@ -240,17 +363,41 @@ Proof.
       intros H; injection H as _ <- _; auto.
 Qed.
 
-Lemma iso_main c s o s1 ev cl :
-  SB s -> TInv s -> main_handler c s o = Some (s1, ev, cl) -> iso s s1 (op_peer o) ev cl.
+Lemma sink_send_peer s p k m a :
+  SKInv s -> hsink s p = Some k \/ usink s p = Some k -> Forall (fun c => call_peer c = p) (sink_send s p k m a).
 Proof.
-  intros B T M. destruct o; unfold_handlers M; cbn [op_peer].
+  intros K H. unfold sink_send. destruct (find_task k (tasks s)) as [t|] eqn:F.
+  - destruct (find_task_some _ _ _ F) as [In1 Id1]. rewrite (proj2 (K p k H) t In1 Id1).
+    destruct (t_closing t); repeat constructor.
+  - repeat constructor.
+Qed.
+
+Lemma iso_calls s p cl : Forall (fun c => call_peer c = p) cl -> iso s s p [] cl.
+Proof. intros F. split; [|split]; [intros q Hq; repeat split | intros q y Hq; tauto | split; [constructor|exact F]]. Qed.
+
+Lemma iso_main c s o s1 ev cl :
+  SB s -> TInv s -> SKInv s -> main_handler c s o = Some (s1, ev, cl) -> iso s s1 (op_peer o) ev cl.
+Proof.
+  intros B T K M. destruct o; unfold_handlers M; cbn [op_peer].
   all: try (split_all; same_peer B; try (iso_close B; fail); try (sig_ev T; iso_close B; fail);
             try (apply iso_shutdown_after; iso_close B; fail); fail).
-  match type of M with context [finish_tasks ?a ?b] => destruct (finish_tasks a b) as [[l' e'] n'] eqn:F end.
-  apply finish_tasks_evs in F. split_all.
-  assert (I : iso s (set_tasks s l') p ev []) by (split; [isof_close | split; [isos_close B | split; [exact F|constructor]]]).
-  unfold run_shutdowns. match goal with |- context [if ?b then _ else _] => destruct b end; auto.
-  now apply iso_shutdown_after.
+  - match type of M with context [finish_tasks ?a ?b] => destruct (finish_tasks a b) as [[l' e'] n'] eqn:F end.
+    apply finish_tasks_evs in F. split_all.
+    assert (I : iso s (set_tasks s l') p ev []) by (split; [isof_close | split; [isos_close B | split; [exact F|constructor]]]).
+    unfold run_shutdowns. match goal with |- context [if ?b then _ else _] => destruct b end; auto.
+    now apply iso_shutdown_after.
+  - injection M as <- <- <-. apply iso_calls. unfold handle_send. destruct (hsink s p) as [k|] eqn:E.
+    + apply sink_send_peer; auto.
+    + repeat constructor.
+  - injection M as <- <- <-. apply iso_calls. unfold handle_send. destruct (hsink s p) as [k|] eqn:E.
+    + apply sink_send_peer; auto.
+    + repeat constructor.
+  - injection M as <- <- <-. apply iso_calls. destruct (usink s p) as [k|] eqn:E.
+    + apply sink_send_peer; auto.
+    + constructor.
+  - injection M as <- <- <-. apply iso_calls. destruct (usink s p) as [k|] eqn:E.
+    + apply sink_send_peer; auto.
+    + constructor.
 Qed.
 
 Definition same_rest (s s' : st) : Prop :=
@@ -258,30 +405,50 @@ Definition same_rest (s s' : st) : Prop :=
   dead s' = dead s /\ nsid s' = nsid s /\ spend s' = spend s /\ tasks s' = tasks s /\
   ntask s' = ntask s /\ lastt s' = lastt s.
 
-Lemma drain_iso p ev : Forall (fun e => uev_peer e = p) ev -> forall s s' dr ks,
-  drain s ev = (s', dr, ks) ->
-  same_rest s s' /\ (forall q, q <> p -> hopen s' q = hopen s q /\ hval s' q = hval s q) /\
-  Forall (eq p) dr /\ (forall k, In k ks -> lastt s p = Some k).
+(* all tasks with one of these ids belong to p *)
+Definition owned (p : peer) (ks : list N) (l : list task) : Prop :=
+  forall k, In k ks -> forall t, In t l -> t_id t = k -> t_peer t = p.
+
+Lemma SK_hsink_last s p : TInv s -> SKInv s -> SKInv (set_hsink s p (lastt s p)).
 Proof.
-  induction 1 as [|e t He _ IH]; intros s s' dr ks; cbn.
+  intros T K q k X. setters. unfold upd in X. destruct (q =? p) eqn:E.
+  - apply N.eqb_eq in E. subst q. destruct X as [X|X]; [|apply K; auto].
+    apply (proj2 T). right. exact X.
+  - apply K. exact X.
+Qed.
+
+Lemma SK_hsink_none s p : SKInv s -> SKInv (set_hsink s p None).
+Proof.
+  intros K q k X. setters. unfold upd in X. destruct (q =? p) eqn:E.
+  - destruct X as [X|X]; [discriminate|]. apply N.eqb_eq in E. subst q. apply K; auto.
+  - apply K. exact X.
+Qed.
+
+Lemma drain_iso p ev : Forall (fun e => uev_peer e = p) ev -> forall s s' dr ks,
+  TInv s -> SKInv s -> drain s ev = (s', dr, ks) ->
+  same_rest s s' /\ (forall q, q <> p -> hopen s' q = hopen s q /\ hval s' q = hval s q) /\
+  Forall (eq p) dr /\ owned p ks (tasks s).
+Proof.
+  induction 1 as [|e t He _ IH]; intros s s' dr ks T K; cbn.
   - intros H; injection H as <- <- <-. repeat split; auto. intros k [].
   - destruct e; cbn in He; subst p0.
     + destruct (hval s p) eqn:HV.
       * destruct (drain s t) as [[a b] c0] eqn:E. intros H; injection H as <- <- <-.
-        destruct (IH _ _ _ _ E) as (A & B & C & D). split; [exact A|split; [exact B|split; [constructor; auto|exact D]]].
-      * intros H. destruct (IH _ _ _ _ H) as (A & B & C & D). setters.
+        destruct (IH _ _ _ _ T K E) as (A & B & C & D). split; [exact A|split; [exact B|split; [constructor; auto|exact D]]].
+      * intros H. destruct (IH (set_hval s p true) _ _ _ T K H) as (A & B & C & D). setters.
         split; [exact A|]. split; [|split; auto].
         intros q Hq. destruct (B q Hq) as [B1 B2]. rewrite upd_other in B2 by exact Hq. auto.
-    + intros H. destruct (IH _ _ _ _ H) as (A & B & C & D). setters.
+    + intros H. destruct (IH (set_hsink (set_hopen s p true) p (lastt s p)) _ _ _ T (SK_hsink_last s p T K) H) as (A & B & C & D). setters.
       split; [exact A|]. split; [|split; auto].
       intros q Hq. destruct (B q Hq) as [B1 B2]. rewrite upd_other in B1 by exact Hq. auto.
-    + destruct (drain (set_hopen s p false) t) as [[a b] c0] eqn:E. intros H; injection H as <- <- <-.
-      destruct (IH _ _ _ _ E) as (A & B & C & D). setters.
+    + destruct (drain (set_hsink (set_hopen s p false) p None) t) as [[a b] c0] eqn:E. intros H; injection H as <- <- <-.
+      destruct (IH (set_hsink (set_hopen s p false) p None) _ _ _ T (SK_hsink_none s p K) E) as (A & B & C & D). setters.
       split; [exact A|]. split; [|split; auto].
       * intros q Hq. destruct (B q Hq) as [B1 B2]. rewrite upd_other in B1 by exact Hq. auto.
-      * intros k Hk. apply in_app_or in Hk. destruct Hk as [Hk|Hk]; auto.
-        destruct (hopen s p); [|destruct Hk]. destruct (lastt s p) as [k0|]; [|destruct Hk].
-        destruct (running s k0); [|destruct Hk]. destruct Hk as [<-|[]]. reflexivity.
+      * intros k Hk. apply in_app_or in Hk. destruct Hk as [Hk|Hk]; [|apply D; exact Hk].
+        destruct (hsink s p) as [k0|] eqn:HS; [|destruct Hk].
+        destruct (running s k0 && _); [|destruct Hk]. destruct Hk as [<-|[]].
+        apply (K p k0). left. exact HS.
     + intros H. eapply IH; eauto.
     + intros H. eapply IH; eauto.
 Qed.
@@ -302,38 +469,46 @@ Proof.
 Qed.
 
 Lemma task_dies_iso s k p s' ev :
-  TInv s -> lastt s p = Some k -> task_dies s k = (s', ev) -> iso s s' p ev [].
+  owned p [k] (tasks s) -> task_dies s k = (s', ev) -> iso s s' p ev [].
 Proof.
-  intros T Lk. unfold task_dies. destruct (find_task k (tasks s)) as [t|] eqn:F;
+  intros O. unfold task_dies. destruct (find_task k (tasks s)) as [t|] eqn:F;
     [|intros E; injection E as <- <-; apply iso_refl].
   destruct (find_task_some _ _ _ F) as [In1 Id1].
-  rewrite (proj2 (proj2 T p k (or_intror Lk)) t In1 Id1).
+  rewrite (O k (or_introl eq_refl) t In1 Id1).
   destruct (t_closing t); [intros E; injection E as <- <-; apply iso_refl|].
   destruct (t_gated t); intros E; injection E as <- <-.
   - split; [isof_close|split; [intros q y Hq; setters; tauto|split; constructor]].
   - apply iso_shutdown_after. split; [isof_close|split; [intros q y Hq; setters; tauto|split; repeat constructor]].
 Qed.
 
-Lemma task_dies_lastt s k s' ev : task_dies s k = (s', ev) -> lastt s' = lastt s.
+Lemma task_dies_le s k s' ev : task_dies s k = (s', ev) -> tasks_le (tasks s) (tasks s').
 Proof.
-  unfold task_dies. destruct (find_task k (tasks s)) as [t|]; [|intros E; injection E as <- _; auto].
-  destruct (t_closing t); [intros E; injection E as <- _; auto|].
-  destruct (t_gated t); intros E; injection E as <- _; auto.
-  unfold on_shutdown. match goal with |- context [match ?x with _ => _ end] => destruct x as [[]|] end; auto.
-  match goal with |- context [if ?x then _ else _] => destruct x end; auto.
+  unfold task_dies. destruct (find_task k (tasks s)) as [t|]; [|intros E; injection E as <- _; apply tasks_le_refl].
+  destruct (t_closing t); [intros E; injection E as <- _; apply tasks_le_refl|].
+  destruct (t_gated t); intros E; injection E as <- _.
+  - setters. tle_close.
+  - assert (X : tasks (on_shutdown (set_tasks s (remove_task k (tasks s))) (t_peer t)) = remove_task k (tasks s)).
+    { unfold on_shutdown. match goal with |- context [match ?x with _ => _ end] => destruct x as [[]|] end; auto.
+      match goal with |- context [if ?x then _ else _] => destruct x end; auto. }
+    rewrite X. tle_close.
+Qed.
+
+Lemma owned_le p ks l l' : tasks_le l l' -> owned p ks l -> owned p ks l'.
+Proof.
+  intros TL O k Hk t' Ht' Id. destruct (TL t' Ht') as (t & Ht & E1 & E2). rewrite E2. apply (O k Hk t Ht). congruence.
 Qed.
 
 Lemma kill_tasks_iso p ks : forall s s' ev,
-  TInv s -> (forall k, In k ks -> lastt s p = Some k) -> kill_tasks s ks = (s', ev) -> iso s s' p ev [].
+  owned p ks (tasks s) -> kill_tasks s ks = (s', ev) -> iso s s' p ev [].
 Proof.
-  induction ks as [|k t IH]; intros s s' ev T L; cbn.
+  induction ks as [|k t IH]; intros s s' ev O; cbn.
   - intros E; injection E as <- <-. apply iso_refl.
   - destruct (task_dies s k) as [s1 e1] eqn:E1. destruct (kill_tasks s1 t) as [s2 e2] eqn:E2.
     intros E; injection E as <- <-.
     change (@nil call) with (@nil call ++ []).
-    eapply iso_trans; [eapply task_dies_iso; eauto; apply L; left; reflexivity|].
-    eapply IH; eauto using task_dies_TInv.
-    intros k0 Hk. rewrite (task_dies_lastt _ _ _ _ E1). apply L. right. exact Hk.
+    eapply iso_trans; [eapply task_dies_iso; eauto; intros k0 [<-|[]]; apply O; left; reflexivity|].
+    eapply IH; eauto. eapply owned_le; [eapply task_dies_le; eauto|].
+    intros k0 Hk. apply O. right. exact Hk.
 Qed.
 
 Lemma notifs_peer s o q : In q (notifs_of s o) -> q = op_peer o.
@@ -358,24 +533,24 @@ Proof.
 Qed.
 
 Lemma step_iso c s o s' ev cl :
-  SInv s -> TInv s -> step c s o = Some (s', ev, cl) -> iso s s' (op_peer o) ev cl.
+  SInv s -> TInv s -> SKInv s -> step c s o = Some (s', ev, cl) -> iso s s' (op_peer o) ev cl.
 Proof.
-  intros [H B] T. unfold step. set (p := op_peer o).
+  intros [H B] T SK. unfold step. set (p := op_peer o).
   destruct (main_handler c s o) as [[[s1 ev1] cl1]|] eqn:M; [|discriminate].
-  destruct (iso_main _ _ _ _ _ _ B T M) as (F1 & S1 & O1 & C1). fold p in F1, S1, O1, C1.
-  pose proof (SL_main _ _ _ _ _ _ H M) as H1. pose proof (SB_main _ _ _ _ _ _ B M) as B1.
-  pose proof (TInv_main _ _ _ _ _ _ T M) as T1.
+  destruct (iso_main _ _ _ _ _ _ B T SK M) as (F1 & S1 & O1 & C1). fold p in F1, S1, O1, C1.
+  pose proof (TInv_main _ _ _ _ _ _ T M) as T1. pose proof (SK_main _ _ _ _ _ _ SK M) as K1.
   destruct (drain s1 ev1) as [[s2 dr] ks] eqn:D.
-  destruct (drain_iso p ev1 O1 _ _ _ _ D) as (R2 & G2 & DR & KS).
+  destruct (drain_iso p ev1 O1 _ _ _ _ T1 K1 D) as (R2 & G2 & DR & KS).
   destruct (iso_of_drain _ _ p R2 G2) as (F2 & S2 & _).
-  pose proof (drain_net _ _ _ _ _ D) as N2. pose proof (drain_tasks _ _ _ _ _ D) as TS2.
-  pose proof (SL_net _ _ N2 H1) as H2. pose proof (SB_net _ _ N2 B1) as B2. pose proof (TInv_same _ _ TS2 T1) as T2.
+  pose proof (drain_tasks _ _ _ _ _ D) as TS2.
+  pose proof (TInv_same _ _ TS2 T1) as T2. pose proof (SK_drain _ _ _ _ _ T1 K1 D) as K2.
   destruct (kill_tasks s2 ks) as [s4 ev4] eqn:K.
-  assert (KS3 : forall k, In k ks -> lastt s2 p = Some k).
-  { intros k Hk. destruct R2 as (_ & _ & _ & _ & _ & _ & _ & _ & _ & _ & L2). rewrite L2. auto. }
-  destruct (kill_tasks_iso p ks _ _ _ T2 KS3 K) as (F4 & S4 & O4 & _).
+  assert (KS3 : owned p ks (tasks s2)).
+  { destruct R2 as (_ & _ & _ & _ & _ & _ & _ & _ & TT & _). rewrite TT. exact KS. }
+  destruct (kill_tasks_iso p ks _ _ _ KS3 K) as (F4 & S4 & O4 & _).
+  pose proof (kill_tasks_TInv _ _ _ _ K T2) as T4. pose proof (SK_kill _ _ _ _ K K2) as K4.
   destruct (drain s4 ev4) as [[s5 x] y] eqn:D5.
-  destruct (drain_iso p ev4 O4 _ _ _ _ D5) as (R5 & G5 & _ & _).
+  destruct (drain_iso p ev4 O4 _ _ _ _ T4 K4 D5) as (R5 & G5 & _ & _).
   destruct (iso_of_drain _ _ p R5 G5) as (F5 & S5 & _).
   intros E; injection E as <- <- <-.
   assert (ST : isoS s s5 p).
